@@ -60,6 +60,27 @@ package baseapp
 //@   may_exit
 //@   ensures [noflush] mode != 2 ==> ms.cwrites == old(ms.cwrites)
 
+// C11: CheckTx never flushes a cache multistore; a transaction that cannot be decoded is answered with the decoder's error
+// and nothing is executed or flushed (the decoder is a function value: assumed to keep the multistore ghosts).
+//@ func (app *BaseApp) CheckTx(req abci.RequestCheckTx) (res abci.ResponseCheckTx)
+//@   props C11
+//@   mode heap
+//@   requires dyntype(app.cms) == typeid("*store/rootmulti.Store")
+//@   modifies everything
+//@   keeps ms.
+//@   may_panic
+//@   may_exit
+//@   ensures [noflush] ms.cwrites == old(ms.cwrites)
+//@ func (app *BaseApp) DeliverTx(req abci.RequestDeliverTx) (res abci.ResponseDeliverTx)
+//@   props C11
+//@   mode heap
+//@   requires dyntype(app.cms) == typeid("*store/rootmulti.Store")
+//@   modifies everything
+//@   keeps ms.
+//@   may_panic
+//@   may_exit
+//@   ensures [at-most-two-flushes] ms.cwrites <= old(ms.cwrites) + 2
+
 // C14: a store query without a height is answered at the last committed height - that height is what the multistore
 // is asked for AND what the response is labelled with; an explicit height is forwarded as it is. (q.* observe the
 // query routed to the multistore: store/types contract file.)
